@@ -61,6 +61,13 @@ def encode_factor(f, frame_case, levels_override=None):
     if k == "polyraw":
         v = numeric(frame_case, f["col"])
         return {"full": [(f"{name}[{d - 1}]", v**d) for d in range(1, f["deg"] + 1)], "reduced": None, "kind": "numerical"}
+    if k == "st":
+        v = numeric(frame_case, f["col"])
+        m = v.mean()
+        if f["fn"] == "center":
+            return {"full": [(name, v - m)], "reduced": None, "kind": "numerical"}
+        sd = np.sqrt(((v - m) ** 2).sum() / (len(v) - 1)) if len(v) > 1 else np.nan
+        return {"full": [(name, (v - m) / sd)], "reduced": None, "kind": "numerical"}
     if k == "hashed":
         from hashlib import md5
 
